@@ -147,7 +147,8 @@ impl RetryPolicy {
         Fut: Future<Output = Result<T>>,
     {
         let mut attempt = 0;
-        let mut backoff = self.initial_backoff;
+        // No delay may exceed the configured maximum, including the first one
+        let mut backoff = self.initial_backoff.min(self.max_backoff);
 
         loop {
             match f().await {
@@ -174,16 +175,24 @@ impl RetryPolicy {
                         #[allow(clippy::cast_precision_loss)]
                         // Precision loss is acceptable for jitter calculation
                         let jitter_ms = (delay.as_millis() as f64 * jitter) as u64;
-                        delay += Duration::from_millis(jitter_ms);
+                        delay = delay.saturating_add(Duration::from_millis(jitter_ms));
                     }
 
                     sleep(delay).await;
 
-                    // Increase backoff
-                    backoff = Duration::from_secs_f64(
-                        (backoff.as_secs_f64() * self.multiplier)
-                            .min(self.max_backoff.as_secs_f64()),
-                    );
+                    // Increase backoff. The multiplier comes from configuration
+                    // (CASCETTE_BACKOFF_MULTIPLIER): a negative, NaN, infinite or
+                    // out-of-range product must clamp, not panic in Duration::from_secs_f64
+                    let next = backoff.as_secs_f64() * self.multiplier;
+                    backoff = if next.is_nan() {
+                        self.max_backoff
+                    } else if next <= 0.0 {
+                        Duration::ZERO
+                    } else {
+                        Duration::try_from_secs_f64(next)
+                            .unwrap_or(self.max_backoff)
+                            .min(self.max_backoff)
+                    };
                 }
             }
         }
